@@ -265,7 +265,7 @@ class New(Op):
             if isz is None:
                 isz = len(a["contents"])
             if isz > a["size"]:
-                return Exp("exc", exc_cls=ValueError, owner=("C19",))
+                return Exp("exc", exc_cls=Exception, owner=("C19",))  # "reject": the statement names no exception class
             c = a["contents"]
             if isz > len(c):
                 c.extend(b"\0" * (isz - len(c)))
